@@ -94,6 +94,16 @@ def _process_batch(modname: str, cases: Sequence[dict], opts: dict) -> List[dict
                 rec["case"] = {k: v for k, v in case.items() if not k.startswith("_")}
                 if tr.status == "ok" and opts.get("keep_cpp", True):
                     rec["cpp"] = tr.cpp
+            if opts.get("want_digest") and dev_runs is not None:
+                h = hashlib.sha256()
+                for dr in dev_runs:
+                    for ev in dr.events:
+                        if ev.kind in ("heap", "lcd_dump", "ar"):
+                            continue
+                        h.update(f"{ev.kind} {' '.join(ev.args)} @{ev.phase}\n".encode())
+                    h.update(f"exit {dr.exit_code} {dr.completed}\n".encode())
+                rec["digest"] = h.hexdigest()[:20]
+                rec["pair"] = case.get("pair")
             if opts.get("want_stats") and dev_runs is not None:
                 rec["events"] = sum(len(r.events) for r in dev_runs)
             results.append(rec)
